@@ -163,6 +163,27 @@ def build_traces(path, tier, seed):
              "x": enc_seq(x[sel]), "y": enc_seq(y[sel] if len(y) == n else [])},
             {"kind": "gain", "family": "long-period corner", "ftype": ftype, "order": order, "cut_off": [cut[0], cut[1]], "fc*dt": fc * dt, "f": f, "dt": dt, "n": n,
              "remove_gibbs": kw.get("remove_gibbs")})
+    # --- "for every record": counts held in an integer dtype are filtered like the same record held as floats, over the WHOLE
+    #     record (ends included), with and without Gibbs padding
+    for j in range(8 if tier == "quick" else 48):
+        n = int(rng.integers(60, 400))
+        dt = 0.01
+        dt_, top = [(np.int8, 120), (np.int16, 30000), (np.int32, 2.0e9), (np.int64, 1000)][j % 4]
+        x, shape = gen.record(rng, n, shape=["noise", "sine", "walk"][j % 3], amp=1.0)
+        xi_ = np.round(x / (np.max(np.abs(x)) + 1e-300) * top + (0.4 * top if j % 2 else 0.0)).clip(-top, top).astype(dt_)
+        gibbs = [None, "start", "end", "mid"][(j // 2) % 4]
+        kw = {"filter_order": int(1 + j % 4)}
+        if gibbs is not None:
+            kw["remove_gibbs"] = gibbs
+        cut = [(1.5, 18.0), (None, 12.0), (2.0, None)][j % 3]
+        oi, of = eqsig.AccSignal(xi_.copy(), dt), eqsig.AccSignal(xi_.astype(float), dt)
+        with warnings.catch_warnings():
+            warnings.simplefilter("ignore")
+            oi.butter_pass(cut, **kw)
+            of.butter_pass(cut, **kw)
+        add({"kind": "rel", "law": "same", "clause": "FilterLinear", "tol": enc(1e-9), "scale": enc(float(top)), "f": enc(1.0), "g": enc(0.0),
+             "x": enc_seq(np.asarray(of.values, dtype=float)), "y": enc_seq(np.asarray(oi.values, dtype=float)), "z": []},
+            {"kind": "rel", "law": "integer record = same record as floats", "dtype": np.dtype(dt_).name, "n": n, "remove_gibbs": gibbs, "cut_off": list(cut), "order": kw["filter_order"]})
     # --- call history: a low-pass and a high-pass with the SAME order and cut-off one after the other (either order),
     #     on the same and on different objects (what Cluster.combine_motions does)
     for j in range(4 if tier == "quick" else 24):
